@@ -3,7 +3,14 @@ import sys, ast
 sys.path.insert(0, '/verif')
 from gsa.source import Project
 from gsa.apimodel import make_interp
-p = Project('/repo')
+ov = None
+if '--patch' in sys.argv:
+    i = sys.argv.index('--patch')
+    from tools.seedeval import patched_sources
+    pf = sys.argv[i + 1]
+    ov, _ = patched_sources(pf if pf.endswith('.diff') else pf + '/patch.diff')
+    del sys.argv[i:i + 2]
+p = Project('/repo', overrides=ov)
 it = make_interp(p)
 entry = sys.argv[1]
 r, st = it.run_entry(entry)
